@@ -234,4 +234,56 @@ theorem minDataLen_le_of_bounded {dims : List (Nat × Nat)} {n : Nat}
     omega
   · simp
 
+/-! ### Shrinking a dimension keeps the size guards; contiguous layouts -/
+
+theorem prodNZ_setSize_le : ∀ (dims : List (Nat × Nat)) (axis n : Nat),
+    n ≤ sizeAt dims axis → prodNZ (shapeOf (setSize dims axis n)) ≤ prodNZ (shapeOf dims) := by
+  intro dims
+  induction dims with
+  | nil => intro axis n _; exact Nat.le_refl _
+  | cons d ds ih =>
+    obtain ⟨size, stride⟩ := d
+    intro axis n hn
+    cases axis with
+    | zero =>
+      simp only [sizeAt, List.getD_cons_zero] at hn
+      simp only [setSize, shapeOf, List.map_cons, prodNZ]
+      have hp := prodNZ_pos (List.map (fun d => d.1) ds)
+      by_cases h0 : n = 0
+      · subst h0
+        simp only [if_true]
+        split
+        · exact Nat.le_refl _
+        · exact Nat.le_mul_of_pos_left _ (by omega)
+      · have hs : size ≠ 0 := by omega
+        simp only [h0, hs, if_false]
+        exact Nat.mul_le_mul_right _ hn
+    | succ a =>
+      simp only [sizeAt, List.getD_cons_succ] at hn
+      have := ih a n hn
+      simp only [setSize, shapeOf, List.map_cons, prodNZ] at *
+      split
+      · exact this
+      · exact Nat.mul_le_mul_left _ this
+
+theorem maxOffset_setSize_le : ∀ (dims : List (Nat × Nat)) (axis n : Nat),
+    n ≤ sizeAt dims axis → maxOffset (setSize dims axis n) ≤ maxOffset dims := by
+  intro dims
+  induction dims with
+  | nil => intro axis n _; exact Nat.le_refl _
+  | cons d ds ih =>
+    obtain ⟨size, stride⟩ := d
+    intro axis n hn
+    cases axis with
+    | zero =>
+      simp only [sizeAt, List.getD_cons_zero] at hn
+      simp only [setSize, maxOffset]
+      have : (n - 1) * stride ≤ (size - 1) * stride := Nat.mul_le_mul_right _ (by omega)
+      omega
+    | succ a =>
+      simp only [sizeAt, List.getD_cons_succ] at hn
+      have := ih a n hn
+      simp only [setSize, maxOffset]
+      omega
+
 end RtenVerif.TensorBounds
